@@ -524,7 +524,15 @@ func (c *rdocCase) Classes() []string {
 func (c *rdocCase) Nontrivial() bool { return len(c.queries()) > 0 }
 
 func rdocDocFor(r *Rng, name string) []string {
-	switch r.Intn(11) {
+	switch r.Intn(15) {
+	case 11:
+		return []string{name + " " + name + " of detail"} // the name twice: only the first one is the leading name
+	case 12:
+		return []string{name + " " + name}
+	case 13:
+		return []string{name + " " + name + " " + name, name + " again on the second line"}
+	case 14:
+		return []string{name + " - " + name + ": punctuation after the name"}
 	case 0:
 		return nil
 	case 1:
